@@ -46,6 +46,7 @@ ASSUMES = [
     "(stated in C05_flattened_equiv's second disjunct; known finding)",
 ]
 CONTROL = ["request", "retry", "timeout", "metadata"]
+FIXED_IMPORTS = ["gapic_v1"]     # imported under a fixed name and used inside the method bodies (routing header)
 IMPORTS = "From GV Require Import Model.Flatten."
 
 
@@ -203,6 +204,31 @@ def witness_api(kind):
         svc = main.service("Library", host="library.example.com")
         svc.rpc("GetBook", rq.fqn, resp.fqn, sigs=["name," + ("shared,library" if sub else "library"), "tags"])
         return apigen.request(files + [main], to_generate=togen + [main.proto.name], parameter="transport=grpc")
+    if kind in ("module_named_param_lro", "param_named_gapic_v1"):
+        # flattened fields named like the modules the method BODIES use: api_core's operation / operation_async (long-running
+        # rpc), the service's pagers module (paginated rpc), retries, core_exceptions; gapic_v1 is imported under a fixed name
+        names = ["gapic_v1"] if kind == "param_named_gapic_v1" else ["operation", "operation_async", "retries", "core_exceptions", "pagers"]
+        main = apigen.File("google/example/library/v1/library.proto", "google.example.library.v1",
+                           deps=list(apigen.STD_DEPS) + ["google/longrunning/operations.proto"])
+        book = main.message("Book")
+        book.field("name", 1, "string")
+        meta_ = main.message("BuildMeta")
+        meta_.field("progress", 1, "int32")
+        rq = main.message("BuildRequest")
+        rq.field("name", 1, "string")
+        lreq = main.message("ListBooksRequest")
+        lreq.field("parent", 1, "string").field("page_size", 2, "int32").field("page_token", 3, "string")
+        for i_, n_ in enumerate(names):
+            rq.field(n_, 10 + i_, "string")
+            lreq.field(n_, 10 + i_, "string")
+        lresp = main.message("ListBooksResponse")
+        lresp.field("books", 1, book.fqn, repeated=True).field("next_page_token", 2, "string")
+        svc = main.service("Library", host="library.example.com")
+        svc.rpc("BuildBook", rq.fqn, ".google.longrunning.Operation", lro=("Book", "BuildMeta"), sigs=[",".join(["name"] + names)],
+                http=("post", "/v1/{name=books/*}:build"), body="*")
+        svc.rpc("ListBooks", lreq.fqn, lresp.fqn, sigs=[",".join(["parent"] + names)], http=("get", "/v1/{parent=shelves/*}/books"))
+        svc.rpc("GetBook", rq.fqn, book.fqn, sigs=[",".join(["name"] + names)], http=("get", "/v1/{name=books/*}"))
+        return apigen.request([main], parameter="transport=grpc")
     if kind == "prefix_signatures":
         main = apigen.File("google/example/library/v1/library.proto", "google.example.library.v1", deps=list(apigen.STD_DEPS))
         book = main.message("Book")
@@ -305,9 +331,10 @@ def witness_api(kind):
 # corpus/C05/<kind>.json holds each of these (written by write_corpus); the first four are the witnesses of defects that were
 # repaired in /repo (353b7c7, 14fc9e4, d43e852, 318bb4b; paged_pb2_request: 9678930): they stay so that a regression is reported
 WITNESSES = ["cross_two_repeated", "cross_dotted", "reserved_in_pb2", "reserved_segment", "presence", "pb2_reserved_leaf",
-             "sub_reserved_leaf", "module_named_param", "module_named_param_sub", "paged_reuse", "paged_pb2_request", "prefix_signatures", "control_name", "duplicate_param", "empty_container_dotted", "falsy_request", "keyword_param_pb2"]
+             "sub_reserved_leaf", "module_named_param", "module_named_param_sub", "paged_reuse", "paged_pb2_request", "prefix_signatures", "module_named_param_lro", "control_name", "duplicate_param", "empty_container_dotted", "falsy_request", "keyword_param_pb2"]
 # a witness whose class is not yet in findings/known_findings.json is reported in scratch/findings and joins the run once it is
-PENDING = {"pb2_nonprimitive_leaf": "flatten.nonprimitive_leaf_in_pb2_submessage"}
+PENDING = {"pb2_nonprimitive_leaf": "flatten.nonprimitive_leaf_in_pb2_submessage",
+           "param_named_gapic_v1": "flatten.param_named_like_fixed_import"}
 CORPUS = os.path.join(env.VERIF, "corpus", "C05")
 
 
@@ -972,7 +999,9 @@ class ApiRun:
             pb2_leaf = self.idx.proto_plus_pkg(self.idx.package_of(rq)) and any(
                 "." in keys[i] and not self.idx.proto_plus_pkg(self.owner_pkg(rq, keys[i]))
                 and (exp[i][2].type == F.TYPE_MESSAGE or exp[i][2].label == F.LABEL_REPEATED) for i in sub_)
-            if pb2_leaf and mode == "kwargs":
+            if any(q in FIXED_IMPORTS for q in params) and not o["ok"]:
+                ctx.features["param named like a fixed import (oracle only)"] += 1      # reported finding; the model has no imports
+            elif pb2_leaf and mode == "kwargs":
                 # a repeated / message leaf of a plain protobuf sub-message: protobuf refuses the emitted assignment (reported finding;
                 # outside the Values contract, see ASSUMES); the oracle below reports it under its signature
                 ctx.features["nonprimitive-leaf-in-pb2-submessage (oracle only)"] += 1
@@ -988,6 +1017,8 @@ class ApiRun:
                 ctx.oblige(f"T2 {self.tag}.{m.name} {variant} {mode}: outcome is one the model knows", False, outcome_detail(o), "T2")
             # ---- the property's own sentences
             known = "flatten.nonprimitive_leaf_in_pb2_submessage" if pb2_leaf else None
+            if any(q in FIXED_IMPORTS for q in params):
+                known = "flatten.param_named_like_fixed_import"
             if mode == "request" and o.get("arg_before") is not None and o.get("arg_before") != o.get("arg_after"):
                 ctx.violation(f"{m.name} ({variant}): the call changed the caller's request object (it must not mutate its argument)",
                               dict(case, before=o["arg_before"], after=o["arg_after"]), known)
